@@ -62,3 +62,37 @@ $(B)/tsan/ada.o: $(REPO)/src/ada.cpp | $(B)/tsan
 	$(CXX) $(STD) $(FLAGS_tsan) $(DEFS) $(INC) -MMD -MP -c $< -o $@
 $(B)/tsan/C13_tsan: props/C13_tsan.cpp $(B)/tsan/ada.o
 	$(CXX) $(STD) $(FLAGS_tsan) $(DEFS) $(INC) $(WARN) $^ -lpthread -o $@
+
+# ---- C18 build matrix: digest servers built from the same tree in five configurations
+C18_CFGS := plain ssse3 avx512 dev
+FLAGS_plain  := -O2 -gdwarf-4 -DADA_DEVELOPMENT_CHECKS=0
+FLAGS_ssse3  := -O2 -gdwarf-4 -mssse3 -DADA_DEVELOPMENT_CHECKS=0
+FLAGS_avx512 := -O2 -gdwarf-4 -mavx512bw -mavx512vl -DADA_DEVELOPMENT_CHECKS=0
+FLAGS_dev    := -O2 -gdwarf-4 -DADA_DEVELOPMENT_CHECKS=1
+define C18_RULES
+$(B)/$(1):
+	mkdir -p $$@
+$(B)/$(1)/ada.o: $(REPO)/src/ada.cpp | $(B)/$(1)
+	$(CXX) $(STD) $(FLAGS_$(1)) $(DEFS) $(INC) -MMD -MP -c $$< -o $$@
+$(B)/$(1)/C18_child.o: props/C18_child.cpp | $(B)/$(1)
+	$(CXX) $(STD) $(FLAGS_$(1)) $(DEFS) $(INC) $(WARN) -MMD -MP -c $$< -o $$@
+$(B)/$(1)/C18_child: $(B)/$(1)/C18_child.o $(B)/$(1)/ada.o
+	$(CXX) $(FLAGS_$(1)) $$^ -o $$@
+endef
+$(foreach c,$(C18_CFGS),$(eval $(call C18_RULES,$(c))))
+
+# amalgamated single-header distribution, regenerated whenever a source of ada changes
+ADA_SOURCES := $(shell find $(REPO)/src $(REPO)/include -type f \( -name '*.cpp' -o -name '*.h' -o -name '*.inc' -o -name '*.hpp' \)) $(REPO)/singleheader/amalgamate.py
+$(B)/amalg:
+	mkdir -p $@
+$(B)/amalg/ada.cpp: $(ADA_SOURCES) | $(B)/amalg
+	AMALGAMATE_OUTPUT_PATH=$(abspath $(B)/amalg) python3 $(REPO)/singleheader/amalgamate.py >/dev/null
+	test -f $(B)/amalg/ada.cpp -a -f $(B)/amalg/ada.h
+$(B)/amalg/ada.o: $(B)/amalg/ada.cpp
+	$(CXX) $(STD) $(FLAGS_plain) $(DEFS) -I$(B)/amalg -c $< -o $@
+$(B)/amalg/C18_child.o: props/C18_child.cpp $(B)/amalg/ada.cpp
+	$(CXX) $(STD) $(FLAGS_plain) $(DEFS) -I$(B)/amalg -Iengine $(WARN) -MMD -MP -c $< -o $@
+$(B)/amalg/C18_child: $(B)/amalg/C18_child.o $(B)/amalg/ada.o
+	$(CXX) $(FLAGS_plain) $^ -o $@
+C18_CHILDREN := $(foreach c,$(C18_CFGS) amalg,$(B)/$(c)/C18_child)
+c18: $(C18_CHILDREN)
